@@ -413,6 +413,20 @@ struct MpSession : public vw::Session {
     };
     for (auto& kv : mp.stored_atvs_) chk(*kv.second, "the ATV map");
     for (auto& kv : mp.stored_vtbs_) chkw(*kv.second, "the VTB map");
+    // independent of the library's own contextual check: a payload that the ACTIVE ALT chain already contains
+    // (payloads index / finalized index) must be forgotten by cleanUp, however old it is
+    for (auto& kv : mp.stored_atvs_)
+      if (mustBeForgotten(I, *kv.second)) fail(std::string(op) + ": ATV " + idname(*reg, kv.first) + " is on the active chain but still connected");
+    for (auto& kv : mp.stored_vtbs_)
+      if (mustBeForgotten(I, *kv.second)) fail(std::string(op) + ": VTB " + idname(*reg, kv.first) + " is on the active chain but still connected");
+    {
+      const typename MemPool::payload_map<ATV>& m = mp.getInFlightMap<ATV>();
+      for (auto& kv : m)
+        if (mustBeForgotten(I, *kv.second)) fail(std::string(op) + ": ATV " + idname(*reg, kv.first) + " is on the active chain but still in flight");
+      const typename MemPool::payload_map<VTB>& m2 = mp.getInFlightMap<VTB>();
+      for (auto& kv : m2)
+        if (mustBeForgotten(I, *kv.second)) fail(std::string(op) + ": VTB " + idname(*reg, kv.first) + " is on the active chain but still in flight");
+    }
     {
       const typename MemPool::payload_map<ATV>& m = mp.getInFlightMap<ATV>();
       for (auto& kv : m) chk(*kv.second, "the in-flight ATVs");
@@ -573,6 +587,19 @@ struct MpSession : public vw::Session {
     return false;
   }
 
+  // a payload the active ALT chain contains AND that is effective there: for a VTB the containing VBK block must be
+  // on the VBK best chain of the instance (on a losing VBK fork the VTB is un-applied in the VBK tree, the library's
+  // duplicate search cannot see it and accepts a re-announcement - observed on the unchanged tree, counted)
+  bool mustBeForgotten(Instance& I, const ATV& a) { return onActiveChain(I, a.getId()); }
+  bool mustBeForgotten(Instance& I, const VTB& w) {
+    if (!onActiveChain(I, w.getId())) return false;
+    auto* c = I.tree.vbk().getBlockIndex(w.containingBlock.getHash());
+    if (c != nullptr && I.tree.vbk().getBestChain().contains(c)) return true;
+    notes.push_back("onchain-vtb-on-losing-vbk-fork " + idname(*reg, w.getId()));
+    return false;
+  }
+  bool mustBeForgotten(Instance&, const VbkBlock&) { return false; }
+
   // ------------------------------------------------------------ ops on an instance
   std::set<std::string> submitted[3];
 
@@ -584,6 +611,8 @@ struct MpSession : public vw::Session {
     bool c = I.mempool->getMap<T>().count(id) != 0;
     const typename MemPool::payload_map<T>& fm = I.mempool->getInFlightMap<T>();
     bool f = fm.count(id) != 0;
+    if (r.isValid() && mustBeForgotten(I, pl))
+      fail("submit returned VALID for a payload the active chain already contains");
     if (r.isValid()) {
       // a VBK block that is already in the stable tree is accepted without being stored
       if (!c && !std::is_same<T, VbkBlock>::value) fail("submit returned VALID but the payload is not connected");
